@@ -164,7 +164,7 @@ Section TreeOkb.
   Definition stl_okb (old new : elem) : bool :=
     let oldE := e_children old in let newE := e_children new in
     let T := match oldE with x :: _ => e_tag x | [] => match newE with y :: _ => e_tag y | [] => "" end end in
-    seqb (e_text old) (e_text new) && list_eqb attr_eqb (sortAttr (e_attrs old)) (sortAttr (e_attrs new)) &&
+    seqb (e_text old) (e_text new) && attrs_okb (e_attrs old) (e_attrs new) &&
     same_addr_attrsb (e_attrs old) (e_attrs new) &&
     forallb (leafTb T) oldE && forallb (leafTb T) newE && forallb plain_leafb oldE && forallb plain_leafb newE &&
     match oldE, newE with
@@ -206,7 +206,7 @@ Section TreeOkb.
     destruct (seqb (e_tag old) "SegmentTimeline").
     - unfold stl_okb in H0. unfold stl_ok.
       repeat (apply andb_true_iff in H0; destruct H0 as [H0 ?]).
-      split; [now apply seqb_eq|]. split; [now apply attrs_sorted_eq_perm|]. split; [now apply same_addr_attrsb_spec|].
+      split; [now apply seqb_eq|]. split; [now apply attrs_okb_spec|]. split; [now apply same_addr_attrsb_spec|].
       split; [eexists; split; eapply forallb_Forall; eauto using leafTb_spec|].
       split; [eapply forallb_Forall; eauto using plain_leafb_spec|].
       split; [eapply forallb_Forall; eauto using plain_leafb_spec|].
